@@ -43,7 +43,7 @@ CHECK = dict(
 
 
 def shards(tier, seed, scale):
-    per = 45 if tier == "quick" else 1300
+    per = 14 if tier == "quick" else 500
     return common.mk_shards(16, seed, tier, per_shard=per, scale=scale)
 
 
@@ -193,6 +193,25 @@ def one_program(rec, M, arch, rng):
             msg = str(exc)
             tight = "tight" if itv_kind.startswith("exact") else itv_kind
             where = "[%s] [%s layout, interval %s]" % (pcl, variant, tight)
+            if pcl != "several pins in one chain" and variant == "compact":
+                # conservative size estimates (max_instruction_len per symbolic instruction,
+                # alignment - 1 per block, strict '<' on the gap) and transient label offsets
+                # computed from them; independent of where in its chain a block is pinned
+                if tight == "tight" and isinstance(exc, RuntimeError) and "Cannot find enough space" in msg:
+                    rec.fail("asm_resolve_final raises RuntimeError (Cannot find enough space to place "
+                             "blocks) [compact layout, interval tight]",
+                             "%r although a layout exists (%s)" % (exc, witness_note), wit)
+                    return None
+                if tight == "tight" and isinstance(exc, ValueError) and "out of destination interval" in msg:
+                    rec.fail("asm_resolve_final raises ValueError (Chain placed out of destination "
+                             "interval) [compact layout, interval tight]",
+                             "%r although a layout exists (%s)" % (exc, witness_note), wit)
+                    return None
+                if isinstance(exc, KeyError) and _frame(exc) == "locationdb.py:set_location_offset":
+                    rec.fail("asm_resolve_final raises KeyError (at locationdb.py:set_location_offset) "
+                             "[compact layout]",
+                             "%r although a layout exists (%s)" % (exc, witness_note), wit)
+                    return None
             if pcl == "pin not at the chain head":
                 # one mechanism, many symptoms (KeyError, TypeError, AssertionError, ValueError,
                 # no fixed point ...): the blocks before the pinned one are never placed
